@@ -17,7 +17,8 @@ CONSTANTS BaseFile, Depth2, MaxLen
 Base == ndJsonDeserialize(BaseFile)
 VARIABLE c
 W16(b, i) == b[i] * 256 + b[i + 1]
-B8(x) == {0, 1, 2, 3, 4, 7, 8, 15, 16, 127, 128, 254, 255, (x + 1) % 256, (x + 255) % 256}
+\* 8-bit boundaries incl. 256 - k: a small constant added to such a length wraps to a small number in 8-bit arithmetic
+B8(x) == {0, 1, 2, 3, 4, 7, 8, 15, 16, 127, 128, 240, 244, 248, 250, 251, 252, 253, 254, 255, (x + 1) % 256, (x + 255) % 256}
 \* length-like boundary values: tiny, header-sized (multiples of 4 and 8 up to 64, +-1), relative to the frame length, sign / wrap-around
 \* boundaries of 16-bit arithmetic (2^16 - k wraps to a small number when a small constant is added or when rounded up to 8)
 B16(n, x) == ({0, 1, 3, 4, 7, 8, 9, 12, 15, 16, 20, 23, 24, 25, 28, 31, 32, 33, 40, 48, 56, 60, 63, 64, 65, n - 1, n, n + 1, n + 8, 255, 256, 32767, 32768,
